@@ -4,6 +4,7 @@ Hdl21 Parameters and Param-Classes
 
 # Std-Lib Imports
 import dataclasses, inspect, json, hashlib
+from decimal import Decimal
 from typing import Optional, Any, Type, TypeVar, Dict
 
 # PyPi Imports
@@ -300,6 +301,13 @@ def hdl21_naming_encoder(obj: Any) -> Any:
             return "0"  # (Zero has a sign, and an exponent, of its own.)
         return str(_EXACT.normalize(value))
 
+    if isinstance(obj, Decimal):
+        # Like the value of a `Prefixed`: exactly, and the same for equal numbers (`Decimal("1")` and `Decimal("1.0")`).
+        # (The general-purpose JSON encoder would convert to `float`, and give numbers which differ beyond ~17 digits one name.)
+        if not obj.is_finite():
+            return str(obj)
+        return "0" if obj == 0 else str(_EXACT.normalize(obj))
+
     if isinstance(obj, (set, frozenset)):
         # Sets iterate in hash order, which differs from process to process. Encode their elements in a reproducible order.
         return sorted(json.dumps(v, default=hdl21_naming_encoder) for v in obj)
@@ -319,7 +327,7 @@ def hdl21_naming_encoder(obj: Any) -> Any:
 
     if isinstance(obj, ExternalModuleCall):
         # Mix the qualified class names/paths with the parameters
-        return module_qualname(obj.module) + _unique_name(obj.params)
+        return module_qualname(obj.module) + "(" + _unique_name(obj.params) + ")"
 
     # Dataclasses also require custom handling, as the default encoder deep-copies them,
     # often invoking methods not supported on several Hdl21 types.
